@@ -172,7 +172,7 @@ def setup(ctx):
     install(ctx)
     names = ["sym", "insub", "insub_cbc", "insup", "outsub", "outsub_prim", "outsub_qtot", "outsub_nrcbc", "outsub_rh", "outsup",
              "2d-sym", "2d-insub", "2d-insup", "2d-outsub", "2d-outsup", "sw-sym", "sw-inf",
-             "dirichlet:euler", "dirichlet:shallowwater", "dirichlet:convection", "dirichlet:burgers", "inverse:1d", "inverse:2d"]
+             "dirichlet:euler", "dirichlet:shallowwater", "dirichlet:convection", "dirichlet:burgers", "inverse:1d", "inverse:2d", "history"]
     ctx.require(*names)
 
 
@@ -355,3 +355,59 @@ def traffic(ctx, rng, idx):
         ctx.describe(**s.desc())
         s.disc.rhs(s.field)
         ctx.nontrivial(s.desc())
+
+
+@group(quick=300, thorough=10000)
+def history(ctx, rng, idx):
+    """ONE model object asked for the same condition with the SAME parameters on alternating sides (and, in 2D, on all four sides
+    in turn), with other conditions in between: every answer must meet its definition whatever was asked before (judged by the
+    always-on monitor; the imposed states are also compared between the two sides)"""
+    gam = float(rng.choice([1.4, 5 / 3, 1.2]))
+    n = 16
+    rho0, p0 = float(10 ** rng.uniform(-1, 1)), float(10 ** rng.uniform(-1, 1))
+    c0 = np.sqrt(gam * p0 / rho0)
+    two_d = idx % 3 == 2
+    names = ["insup", "insub", "insub_cbc", "outsub", "outsub_qtot", "outsub_nrcbc", "outsub_rh", "outsup", "sym"] if not two_d else ["insup", "insub", "outsub", "outsup", "sym"]
+    name = names[(idx // 3) % len(names)]
+    mref = float(rng.uniform(1.2, 2.5)) if name == "insup" else float(rng.uniform(0.1, 0.8))
+    pt, rtt = refs.totals(rho0, mref * c0, p0, gam)
+    par = {"type": name, "ptot": float(pt), "rttot": float(rtt), "p": float(p0)}
+    ctx.describe(bc=name, two_d=two_d, gamma=gam, params=par)
+    ctx.ev("history")
+    if not two_d:
+        model = euler.euler1d(gamma=gam) if idx % 2 else euler.nozzle(lambda x: 1 + 0 * x, gamma=gam)
+        d0 = int(rng.choice([-1, 1]))
+        answers = {}
+        for k, d in enumerate([d0, -d0, d0, -d0]):
+            rho = rho0 * rng.uniform(0.8, 1.25, n); p = p0 * rng.uniform(0.8, 1.25, n) if name != "insub" else np.full(n, p0)
+            mach_in = rng.uniform(0.05, 0.7, n)
+            # interior velocity compatible with the kind of condition on that side (inflow for inlets, outflow for outlets)
+            un = -mach_in if name.startswith("in") else mach_in
+            u = d * un * np.sqrt(gam * p / rho) * (3.0 if name in ("insup", "outsup") else 1.0)
+            got = model.namedBC(name, d, [rho, u, p], dict(par))
+            answers[k] = (d, [np.array(x, dtype=float, copy=True) for x in got])
+            if k == 1:     # something else in between
+                model.namedBC("outsub", d, [rho, u, p], {"type": "outsub", "p": p0 * 0.9})
+        if name == "insup":    # fully imposed state: the two sides get mirror-image velocities, the same density and pressure
+            (da, A), (db, B) = answers[0], answers[1]
+            ok = np.allclose(np.broadcast_to(A[0], (n,)), np.broadcast_to(B[0], (n,)), rtol=1e-14) and np.allclose(np.broadcast_to(A[1], (n,)), -np.broadcast_to(B[1], (n,)), rtol=1e-14)
+            ctx.true("history:insup-mirror", ok, "history/insup/state-on-one-side-is-not-the-mirror-of-the-other-side", {"first": [da, A[1]], "second": [db, B[1]]}, cls="history")
+            (dc, C) = answers[2]
+            ctx.true("history:insup-repeat", all(np.array_equal(np.broadcast_to(x, (n,)), np.broadcast_to(y, (n,))) for x, y in zip(A, C)), "history/insup/answer-depends-on-previous-calls", None, cls="history")
+    else:
+        model = euler.euler2d(gamma=gam)
+        sides = [(-1.0, 0.0), (1.0, 0.0), (0.0, -1.0), (0.0, 1.0)]
+        order = [sides[i] for i in rng.permutation(4)] * 2
+        ang = float(np.round(rng.uniform(-180, 180), 1))
+        for k, nv in enumerate(order):
+            nrm = np.vstack([np.full(n, nv[0]), np.full(n, nv[1])])
+            rho = rho0 * rng.uniform(0.8, 1.25, n); p = p0 * rng.uniform(0.8, 1.25, n) if name != "insub" else np.full(n, p0)
+            un = (-1.0 if name.startswith("in") else 1.0) * rng.uniform(0.05, 0.7, n) * (3.0 if name in ("insup", "outsup") else 1.0)
+            ut = rng.uniform(-0.5, 0.5, n)
+            cc = np.sqrt(gam * p / rho)
+            V = cc * (un * nrm + ut * np.vstack([-nrm[1], nrm[0]]))
+            pp = dict(par)
+            if name == "insup" and k % 2:
+                pp["angle"] = ang
+            model.namedBC(name, nrm, [rho, V, p], pp)
+    ctx.nontrivial("history", name, two_d, gam, par)
